@@ -14,6 +14,7 @@
 
 from collections import Counter
 from collections.abc import Callable
+from math import comb
 from random import random
 
 import numpy as np
@@ -367,6 +368,9 @@ class Sampler:
             raise SamplerError(
                 "sample_N_outputs not compatible with detector dark counts"
             )
+        # Each photon is only detected with the detector efficiency
+        if self.detector.efficiency < 1:
+            pdist = _apply_efficiency(pdist, self.detector.efficiency)
         # Get heralds and pre-calculate items
         heralds = self.circuit.heralds["output"]
         if heralds:
@@ -488,3 +492,29 @@ class Sampler:
             pcon += p
             cdist[s] = pcon / total
         return cdist
+
+
+def _apply_efficiency(pdist: dict, efficiency: float) -> dict:
+    """
+    Converts a probability distribution into the distribution of detected
+    states when each photon is detected independently with the provided
+    efficiency.
+    """
+    detected: dict[State, float] = {}
+    for state, prob in pdist.items():
+        # Build up all detection patterns for the state one mode at a time
+        patterns: list[tuple[list[int], float]] = [([], prob)]
+        for n in state:
+            patterns = [
+                (
+                    [*d, k],
+                    p * comb(n, k) * efficiency**k * (1 - efficiency) ** (n - k),
+                )
+                for d, p in patterns
+                for k in range(n + 1)
+            ]
+        for d, p in patterns:
+            if p > 0:
+                new_state = State(d)
+                detected[new_state] = detected.get(new_state, 0) + p
+    return detected
